@@ -72,6 +72,9 @@ pub fn alphabet(_prog: &Prog) -> Vec<Action> {
         Action::spelled("", Cmd::Eval(None)),
         // a HALT word written by the debugger over the next instruction
         Action::of(Cmd::MoveMem(Loc::PcOff(1), 0xF025)),
+        // the word under the PC replaced by an ordinary instruction (when parked on HALT: the
+        // HALT is gone and resuming must execute the new word)
+        Action::of(Cmd::MoveMem(Loc::PcOff(0), 0x1021)),
     ]
 }
 
